@@ -255,3 +255,4 @@ PROPS['C10']['expect_probes'] = PROPS['C10']['expect_probes'] + ['grant_of_buffe
 PROPS['C13']['expect_probes'] = PROPS['C13']['expect_probes'] + ['running_callback_owner_moved_inside_its_body']
 PROPS['C14']['expect_probes'] = PROPS['C14']['expect_probes'] + ['F4_sbx_malloc_block_ends_at_last_byte']
 PROPS['C19']['expect_probes'] = PROPS['C19']['expect_probes'] + ['F14_clock_leaps_forward_by_seconds']
+PROPS['C15']['expect_probes'] = PROPS['C15']['expect_probes'] + ['owner_destroyed_by_exception_unwinding']
